@@ -41,5 +41,53 @@ func init() {
 			}
 		}
 		writeBool(b, "c03_handler_level_shape", ok)
+
+		// services/hh: the footer of a segment file (initial disk usage of a fresh queue) and the two
+		// refusals the handoff model (theories/C03/Handoff.v) mirrors:
+		//   Service.WriteShard:  if !s.cfg.Enabled { return ErrHintedHandoffDisabled }
+		//   queue.Append:        if l.diskUsage()+int64(len(b)) > l.maxSize { return ErrQueueFull }
+		q := loadPkg(filepath.Join(*repo, "services", "hh"))
+		fmt.Fprintf(b, "Definition c03_hh_footer_size : N := %s%%N.\n", q.intConst("footerSize"))
+		ifReturns := func(fd *ast.FuncDecl, cond, ret string) bool {
+			found := false
+			if fd == nil {
+				return false
+			}
+			ast.Inspect(fd, func(n ast.Node) bool {
+				is, ok := n.(*ast.IfStmt)
+				if !ok || c17ExprString(is.Cond) != cond || len(is.Body.List) != 1 {
+					return true
+				}
+				if rs, ok := is.Body.List[0].(*ast.ReturnStmt); ok && len(rs.Results) == 1 && c17ExprString(rs.Results[0]) == ret {
+					found = true
+				}
+				return true
+			})
+			return found
+		}
+		writeBool(b, "c03_hh_refusal_shape",
+			ifReturns(q.funcDecl("WriteShard", "Service"), "!s.cfg.Enabled", "ErrHintedHandoffDisabled") &&
+				ifReturns(q.funcDecl("Append", "queue"), "l.diskUsage()+int64(len(b))>l.maxSize", "ErrQueueFull"))
+
+		// coordinator/shard_writer.go WriteShardBinary: a failed read of the reply marks the connection unusable
+		// before returning (theories/C03/Remote.v, keep = false)
+		cw := loadPkg(filepath.Join(*repo, "coordinator"))
+		marks := false
+		if fd := cw.funcDecl("WriteShardBinary", "ShardWriter"); fd != nil {
+			for i, st := range fd.Body.List {
+				as, ok := st.(*ast.AssignStmt)
+				if !ok || len(as.Rhs) != 1 || !strings.HasPrefix(c17ExprString(as.Rhs[0]), "ReadTLVT(") || i+1 >= len(fd.Body.List) {
+					continue
+				}
+				is, ok := fd.Body.List[i+1].(*ast.IfStmt)
+				if !ok || c17ExprString(is.Cond) != "err!=nil" || len(is.Body.List) < 2 {
+					continue
+				}
+				if es, ok := is.Body.List[0].(*ast.ExprStmt); ok && c17ExprString(es.X) == "MarkUnusable(conn)" {
+					marks = true
+				}
+			}
+		}
+		writeBool(b, "c03_shard_writer_discards_after_read_error", marks)
 	})
 }
